@@ -369,6 +369,8 @@ def eval_term(t, env, cache=None):
                 "sin": math.sin,
                 "arctan2": math.atan2,
                 "pow": lambda a, b: a**b,
+                "cerf_re": lambda a, b: float(special.erf(complex(a, b)).real),
+                "cerf_im": lambda a, b: float(special.erf(complex(a, b)).imag),
             }.get(n)
             if fn is None:
                 raise KeyError(f"uninterpreted function {n}")
